@@ -55,6 +55,47 @@ def run(args):
             R.disagree("nested_checkpoint_scan", lengths=ls, impl=[carry, out[:6]], model=[mc, mo[:6]])
         if (carry, out) != (fc, fo):
             R.spec_fail(dict(kind="nested-scan-differs-from-scan"), f"nested_checkpoint_scan with lengths {ls} differs from lax.scan", dict(lengths=ls, xs=xs, s0=s0), [carry, out])
+    # ---------------- (c') the ARGUMENTS of integrate are inputs: the same param_state / params / data objects can be passed again
+    for t in range(nm0 := {"quick": 1, "thorough": 4}[args.tier]):
+        net, desc = random_network(rng, syn_types=["IonotropicSynapse", "TestSynapse"], nsyn=int(rng.integers(3, 7)))
+        backend = BACKENDS[(args.shard + t) % 3]
+        net.delete_recordings(); net.select(nodes=list(range(net.nodes.shape[0]))).record("v", verbose=False)
+        typ = str(net.edges["type"].iloc[-1])
+        es = [int(x) for x in net.edges.index[net.edges["type"] == typ]]
+        e = es[-1]                                           # the last edge of its type: global index != rank whenever types interleave
+        gkey = {"IonotropicSynapse": "IonotropicSynapse_gS", "TestSynapse": "TestSynapse_gC"}[typ]
+        val = 5e-3
+        ps = net.select(edges=[e]).data_set(gkey, val, None)
+        ps = net.select(nodes=[0]).data_set("radius", 2.5, ps)
+        ds = net.select(nodes=[0]).data_stimulate(jnp.asarray(stim_signal(rng, 8) + 0.05))
+        def freeze(o):
+            if isinstance(o, (list, tuple)):
+                return [freeze(x) for x in o]
+            if isinstance(o, dict):
+                return {str(k): freeze(v) for k, v in sorted(o.items(), key=lambda kv: str(kv[0]))}
+            if hasattr(o, "to_dict"):
+                return freeze(o.to_dict())
+            if hasattr(o, "shape"):
+                return np.asarray(o).tolist()
+            return o if isinstance(o, (int, float, str, bool, type(None))) else str(o)
+        inp = dict(module=desc, backend=backend, edge=e, edges_of_type=es, key=gkey)
+        b_ps, b_ds = json.dumps(freeze(ps)), json.dumps(freeze(ds))
+        try:
+            r1 = np.asarray(jx.integrate(net, param_state=ps, data_stimuli=ds, voltage_solver=backend))
+        except AssertionError:
+            R.count("refused"); continue
+        r2 = np.asarray(jx.integrate(net, param_state=ps, data_stimuli=ds, voltage_solver=backend))
+        R.evaluations += 1
+        R.count("args:" + ("edge-index!=rank" if es.index(e) != e else "edge-index==rank"))
+        if json.dumps(freeze(ps)) != b_ps or json.dumps(freeze(ds)) != b_ds:
+            R.spec_fail(dict(kind="integrate-mutates-arguments"), "integrate changed the param_state / data_stimuli objects passed to it", inp, None)
+        if not np.array_equal(r1, r2, equal_nan=True):
+            R.spec_fail(dict(kind="repeat-not-bit-identical", args="param_state"), f"a second integrate call with the same param_state differs by {np.nanmax(np.abs(r1 - r2)):.3g}", inp, None)
+        import copy as _copy
+        m2 = _copy.deepcopy(net); m2.select(edges=[e]).set(gkey, val); m2.select(nodes=[0]).set("radius", 2.5)
+        r3 = np.asarray(jx.integrate(m2, data_stimuli=ds, voltage_solver=backend))
+        if not np.allclose(r1, r3, rtol=1e-12, atol=1e-12):
+            R.spec_fail(dict(kind="param_state-differs-from-set"), f"param_state route differs from the set() route by {np.nanmax(np.abs(r1 - r3)):.3g}", inp, None)
     # ---------------- (b), (c) integrate
     nm = {"quick": 1, "thorough": 4}[args.tier] * (2 if args.mode == "search" else 1)
     for t in range(nm):
